@@ -1504,9 +1504,15 @@ struct TemplateCore {
             }
 
             case QOperation::Remainder: { // %
-                left.Value.Number.Integer = (left % right);
-                left.Type                 = ExpressionType::IntegerNumber;
-                break;
+                // The remainder works on integers: a divisor that truncates to zero has no result (and would trap).
+                if (((right.Type == ExpressionType::RealNumber) ? SizeT64I(right.Value.Number.Real)
+                                                                : right.Value.Number.Integer) != 0) {
+                    left.Value.Number.Integer = (left % right);
+                    left.Type                 = ExpressionType::IntegerNumber;
+                    break;
+                }
+
+                return false;
             }
 
             case QOperation::Multiplication: { // *
